@@ -35,7 +35,7 @@ type c08File struct {
 	Old   []int `json:"old"`
 	Ex    bool  `json:"ex"`
 	Kind  string `json:"kind"`
-	Stuck bool  `json:"stuck"` // today's code is predicted (Resume, AsCoded) not to finish this one
+	Stuck bool  `json:"stuck"` // Resume with AsCoded = TRUE (the code before the empty-source fix) cannot finish this one
 	Match int   `json:"match"`
 	Rest  int   `json:"rest"`
 	Mid   int64 `json:"mid"` // bytes of a partial middle unit (0 = whole middle)
@@ -533,8 +533,8 @@ func c08Resume(d *vCtx) error {
 					return err
 				}
 				tries++
-				// a time-out that the model does not predict says nothing on a loaded machine: run again
-				if r.timedOut && !predicted && tries <= retries {
+				// a time-out says little on a loaded machine: run again
+				if r.timedOut && tries <= retries {
 					d.add("retried_timeouts", 1)
 					continue
 				}
@@ -544,7 +544,9 @@ func c08Resume(d *vCtx) error {
 				"touched": r.touched, "extra": r.extra, "same": r.same, "dstbytes": r.dstLen, "srcbytes": r.srcLen,
 				"oldbytes": r.oldLen, "cplbytes": r.cpl, "ms": time.Since(t0).Milliseconds(), "tries": tries}
 			if r.timedOut && !predicted {
-				// inconclusive: recorded, not judged
+				// inconclusive: recorded, not judged (a case the pre-fix model predicts to sit still for
+				// ever is emitted: the check accepts it as a finding only when the recorded lines end in
+				// exactly that state)
 				det["inconclusive"] = true
 				d.add("inconclusive", 1)
 			} else {
